@@ -331,7 +331,7 @@ func (nfc *NfcSession) ReadFile(fileId uint16) (fileData []byte, err error) {
 		}
 
 		totalBytes = int(tmpTlvLength)
-		totalBytes += 4 - tmpBuf.Len()
+		totalBytes += len(fileHeader) - tmpBuf.Len()
 	}
 
 	// read remainder of file
